@@ -141,6 +141,9 @@ pub enum CteBody {
 pub struct Cte {
     pub name: String,
     pub cols: Vec<String>,
+    /// built with `CommonTableExpression::from_select`: the column list is inferred from the select list
+    /// (all items named -> their names, otherwise none); `cols` is empty then
+    pub infer: bool,
     pub body: Box<CteBody>,
     pub materialized: Option<bool>,
 }
